@@ -278,8 +278,11 @@ def strip_tags(resolver: Resolver, node: yaml.Node) -> None:
     """
     if isinstance(node, yaml.ScalarNode):
         if not node.tag.startswith('tag:yaml.org,2002:'):
+            # what it would be without the tag: only a plain scalar
+            # can be anything but a string
+            plain = node.style is None
             node.tag = resolver.resolve(
-                    yaml.ScalarNode, node.value, (True, False))
+                    yaml.ScalarNode, node.value, (plain, not plain))
     elif isinstance(node, yaml.SequenceNode):
         node.tag = 'tag:yaml.org,2002:seq'
         for subnode in node.value:
